@@ -44,7 +44,7 @@ type c04Chart struct {
 }
 
 type c04Case struct {
-	Kind string `json:"kind"` // files mergemaps coalesce tables
+	Kind string `json:"kind"` // files mergemaps coalesce tables opts parse
 	// files
 	Files []vtree `json:"files,omitempty"`
 	// mergemaps / tables
@@ -55,6 +55,9 @@ type c04Case struct {
 	API   string    `json:"api,omitempty"` // CoalesceValues MergeValues ToRenderValues
 	Chart *c04Chart `json:"chart,omitempty"`
 	Vals  vtree     `json:"vals,omitempty"`
+	// opts: flag mixture through values.Options.MergeValues; parse: one strvals entry point
+	Opts  *c04Opts  `json:"opts,omitempty"`
+	Parse *c04Parse `json:"parse,omitempty"`
 	Tag   string    `json:"tag,omitempty"` // generator stream, for the distribution table
 }
 
@@ -67,13 +70,17 @@ type c04Obs struct {
 
 func (*c04) ID() string { return "C04" }
 func (*c04) CoqImport() string {
-	return "From Helm Require Import Values.Tree Values.Coalesce Run.RunC04."
+	return "From Helm Require Import Values.Tree Values.Coalesce Values.Strvals Values.Options Run.RunC04."
 }
 func (*c04) Rule() string {
 	return "trees of depth <= 4 over a 5-key alphabet plus odd keys (dotted, spaced, non-ASCII, 'global'), with nulls, lists, " +
 		"empty tables and table<->scalar clashes between sources; kinds: files (2-4 -f files through Options.MergeValues), " +
 		"mergemaps, coalesce (chart trees up to 3 levels x user values through CoalesceValues/MergeValues/ToRenderValues), " +
-		"tables (CoalesceTables/MergeTables); non-trivial = at least two sources define a common path and the result is not an error; " +
+		"tables (CoalesceTables/MergeTables), opts (mixtures of -f/--set-json/--set/--set-string/--set-file/--set-literal through " +
+		"Options.MergeValues: a 'simple' stream of single path=value flags over a shared pool of paths, and a 'rich' stream of generated trees " +
+		"and grammar expressions), parse (ParseInto/ParseIntoString/ParseJSON/ParseLiteralInto/ParseIntoFile on a non-empty dest: grammar stream " +
+		"with escaped keys, indexes, brace lists, typed literals; hand-written edge cases; malformed stream over a 20-symbol alphabet); " +
+		"non-trivial = no error and (at least two sources define a common path | flags from >= 2 families | the parse changed a non-empty dest); " +
 		"distinct = hash of (case, observation)"
 }
 
@@ -94,6 +101,43 @@ func (*c04) Corpus() []any {
 	out = append(out, c04Case{Kind: "files", Files: []vtree{{"a": vtree{"x": int64(1), "y": int64(2)}, "l": []interface{}{int64(1), int64(2)}},
 		{"a": vtree{"x": nil}, "l": []interface{}{int64(3)}}, {"a": "flat"}, {"a": vtree{"k": "v"}}}, Tag: "corpus"})
 	out = append(out, c04Case{Kind: "tables", Merge: false, A: vtree{"a": nil, "b": vtree{"c": nil}, "n": nil}, B: vtree{"a": int64(1), "b": vtree{"c": int64(2), "d": int64(3)}}, Tag: "corpus"})
+	// every hand-written --set edge case, on an empty and on a populated destination, through each parser
+	for _, fn := range []string{"ParseInto", "ParseIntoString", "ParseLiteralInto", "ParseJSON"} {
+		for _, h := range c04Hand {
+			out = append(out, c04Case{Kind: "parse", Tag: "corpus-parse", Parse: &c04Parse{Fn: fn, S: h, Dest: vtree{}}})
+			out = append(out, c04Case{Kind: "parse", Tag: "corpus-parse", Parse: &c04Parse{Fn: fn, S: h,
+				Dest: vtree{"a": []interface{}{int64(5), []interface{}{int64(6)}, vtree{"b": int64(1)}}, "b": vtree{"c": "x"}}}})
+			out = append(out, c04Case{Kind: "parse", Tag: "corpus-parse", Parse: &c04Parse{Fn: fn, S: h, Dest: vtree{"a": vtree{"b": vtree{"k": int64(1)}}, "c": nil}}})
+		}
+	}
+	// all six families on one path, and each adjacent pair of families
+	p1, p2 := c04FilePath("from-file"), c04FilePath("F")
+	out = append(out, c04Case{Kind: "opts", Tag: "corpus-opts", Opts: &c04Opts{Files: []vtree{{"a": "file1", "k": vtree{"x": int64(1)}}, {"a": "file2"}},
+		JSON: []string{`{"a":"json"}`}, Set: []string{"a=set,k.y=2"}, SetString: []string{"a=str"}, SetFile: []string{"a=" + p1}, Literal: []string{"a=lit"},
+		Contents: map[string]string{p1: "from-file"}}})
+	fams := []string{"file", "json", "set", "string", "setfile", "literal"}
+	for i := 0; i < len(fams); i++ {
+		for j := i + 1; j < len(fams); j++ {
+			o := &c04Opts{Contents: map[string]string{p2: "F"}}
+			for _, f := range []string{fams[i], fams[j]} {
+				switch f {
+				case "file":
+					o.Files = append(o.Files, vtree{"a": vtree{"b": "f"}})
+				case "json":
+					o.JSON = append(o.JSON, `a.b="j"`)
+				case "set":
+					o.Set = append(o.Set, "a.b=1")
+				case "string":
+					o.SetString = append(o.SetString, "a.b=2")
+				case "setfile":
+					o.SetFile = append(o.SetFile, "a.b="+p2)
+				case "literal":
+					o.Literal = append(o.Literal, "a.b=L,x")
+				}
+			}
+			out = append(out, c04Case{Kind: "opts", Tag: "corpus-opts", Opts: o})
+		}
+	}
 	out = append(out, c04Case{Kind: "tables", Merge: true, A: vtree{"a": nil, "b": vtree{"c": nil}}, B: vtree{"a": int64(1), "b": vtree{"c": int64(2), "d": int64(3)}}, Tag: "corpus"})
 	return out
 }
@@ -134,6 +178,12 @@ func c04GenChart(r *rand.Rand, name string, levels int, base vtree) *c04Chart {
 
 func (*c04) Generate(r *rand.Rand, _ int) any {
 	base := vtGenMap(r, 3, 2+r.Intn(4))
+	switch k := r.Intn(40); {
+	case k < 10:
+		return c04GenOpts(r, base)
+	case k < 20:
+		return c04GenParse(r, base)
+	}
 	switch k := r.Intn(20); {
 	case k < 5:
 		c := c04Case{Kind: "files", Tag: "files"}
@@ -222,6 +272,20 @@ func (*c04) Decode(raw json.RawMessage) (any, error) {
 	}
 	c.A, c.B, c.Vals = c04NormMap(c.A), c04NormMap(c.B), c04NormMap(c.Vals)
 	c04NormChart(c.Chart)
+	if c.Opts != nil {
+		for i := range c.Opts.Files {
+			c.Opts.Files[i] = c04NormMap(c.Opts.Files[i])
+		}
+		for i := range c.Opts.Assign {
+			c.Opts.Assign[i].Val = vtNorm(c.Opts.Assign[i].Val)
+		}
+	}
+	if c.Parse != nil {
+		c.Parse.Dest = c04NormMap(c.Parse.Dest)
+		for i := range c.Parse.Pairs {
+			c.Parse.Pairs[i].Val = vtNorm(c.Parse.Pairs[i].Val)
+		}
+	}
 	return c, nil
 }
 
@@ -286,6 +350,10 @@ func (*c04) Execute(ci any) (res any) {
 		} else {
 			obs.Out = m
 		}
+	case "opts":
+		c04ExecOpts(c.Opts, &obs)
+	case "parse":
+		c04ExecParse(c.Parse, &obs)
 	case "mergemaps":
 		a, b := vtCopyMap(c.A), vtCopyMap(c.B)
 		obs.Out = loader.MergeMaps(a, b)
@@ -391,6 +459,10 @@ func (*c04) CoqCase(ci, oi any) string {
 			fs[i] = hx.CoqValMap(f)
 		}
 		return fmt.Sprintf("CFiles %s %s", hx.CoqList(fs), c04CoqRes(obs))
+	case "opts":
+		return fmt.Sprintf("COpts %s %s", c04CoqOpts(c.Opts), c04CoqRes(obs))
+	case "parse":
+		return c04CoqParse(c.Parse, c04CoqRes(obs))
 	case "mergemaps":
 		return fmt.Sprintf("CMergeMaps %s %s %s", hx.CoqValMap(c.A), hx.CoqValMap(c.B), c04CoqRes(obs))
 	case "tables":
@@ -427,10 +499,36 @@ func c04Sources(c c04Case) []vtree {
 	return nil
 }
 
+// c04Touched: for opts/parse cases, did a flag value land on something that was already there
+// (an earlier source or dest)?
+func c04Touched(c c04Case, out vtree) bool {
+	switch c.Kind {
+	case "opts":
+		n := len(c.Opts.Files) + len(c.Opts.JSON) + len(c.Opts.Set) + len(c.Opts.SetString) + len(c.Opts.SetFile) + len(c.Opts.Literal)
+		fam := 0
+		for _, l := range [][]string{c.Opts.JSON, c.Opts.Set, c.Opts.SetString, c.Opts.SetFile, c.Opts.Literal} {
+			if len(l) > 0 {
+				fam++
+			}
+		}
+		if len(c.Opts.Files) > 0 {
+			fam++
+		}
+		return n >= 2 && fam >= 2
+	case "parse":
+		return len(c.Parse.Dest) > 0 && len(c.Parse.S) > 0 && !vtEqual(c.Parse.Dest, out)
+	}
+	return false
+}
+
 func (*c04) NonTrivial(ci, oi any) bool {
 	c, obs := ci.(c04Case), oi.(c04Obs)
 	if obs.Err != "" || obs.Panic != "" {
 		return false
+	}
+	if c.Kind == "opts" || c.Kind == "parse" {
+		out, _ := orAsTree(obs.Out)
+		return c04Touched(c, out)
 	}
 	seen := map[string]int{}
 	for _, s := range c04Sources(c) {
